@@ -52,6 +52,10 @@ type blockMap struct {
 
 	Hash            crypto.Hash `xml:"-"`
 	unverifiedSizes bool
+	// the package being digested is a bundle: only then are nested *.appx
+	// packages left out of the block map (verifyBlockMap skips them only
+	// in bundles)
+	isBundle bool
 }
 
 type blockFile struct {
@@ -236,7 +240,7 @@ func (b *blockMap) AddFile(f *zipslicer.File, raw, cooked io.Writer) error {
 			return err
 		}
 	}
-	if !(noHashFiles[f.Name] || strings.HasSuffix(f.Name, ".appx")) {
+	if !(noHashFiles[f.Name] || (b.isBundle && strings.HasSuffix(f.Name, ".appx"))) {
 		if f.Method != zip.Store {
 			b.unverifiedSizes = true
 		}
